@@ -32,9 +32,13 @@ use serde_json::{json, Value};
 use verif_core::*;
 
 pub const CHIPS: [&str; 3] = ["sx126x", "sx1276", "sx1272"];
-pub const PATHS: [&str; 5] = ["kind", "lora-rx", "lora-get_rx_result", "lorawan-rx_single", "lorawan-rx_continuous"];
+pub const PATHS: [&str; 7] = ["kind", "lora-rx", "lora-get_rx_result", "lorawan-rx_single", "lorawan-rx_continuous", "lora-second-reception", "lora-fetch-twice"];
 pub const BUF_SIZES: [usize; 6] = [0, 1, 12, 64, 255, 256];
 pub const CANARY: u8 = 0xA5;
+/// largest caller buffer exercised
+pub const BIG: usize = 1024;
+/// preamble lengths of the enumerated cases (packet parameters vary with the offset index)
+pub const PREAMBLES: [u16; 4] = [8, 0, 65_535, 12];
 const FREQ: u32 = 868_100_000;
 
 /// position-dependent content of the chip buffer; never equal to the canary
@@ -65,12 +69,17 @@ pub struct Case {
     pub irq: u16,
     /// RxMode::Continuous instead of Single (lora-* paths)
     pub continuous: bool,
+    /// remaining packet parameters (kind and lora-* paths; the adapter fixes CRC on, IQ inverted, preamble 8)
+    pub crc: bool,
+    pub iq: bool,
+    pub pre: u16,
 }
 
 impl Case {
     pub fn json(&self) -> Value {
         json!({"kind":"rxfetch","chip":CHIPS[self.chip],"path":PATHS[self.path],"implicit_header":self.implicit,"configured_len":self.cfg_len,"reported_len":self.len,
-               "reported_offset":self.off,"buffer_size":self.buf,"status":self.status,"irq_flags":self.irq,"continuous":self.continuous})
+               "reported_offset":self.off,"buffer_size":self.buf,"status":self.status,"irq_flags":self.irq,"continuous":self.continuous,
+               "crc_on":self.crc,"iq_inverted":self.iq,"preamble":self.pre})
     }
     pub fn from_json(v: &Value) -> Option<Case> {
         Some(Case {
@@ -80,10 +89,13 @@ impl Case {
             cfg_len: v["configured_len"].as_u64()? as u8,
             len: v["reported_len"].as_u64()? as u8,
             off: v["reported_offset"].as_u64()? as u8,
-            buf: (v["buffer_size"].as_u64()? as usize).min(256),
+            buf: (v["buffer_size"].as_u64()? as usize).min(BIG),
             status: v["status"].as_u64().unwrap_or(STATUS_OK as u64) as u8,
             irq: v["irq_flags"].as_u64().unwrap_or(0) as u16,
             continuous: v["continuous"].as_bool().unwrap_or(false),
+            crc: v["crc_on"].as_bool().unwrap_or(true),
+            iq: v["iq_inverted"].as_bool().unwrap_or(true),
+            pre: v["preamble"].as_u64().unwrap_or(8) as u16,
         })
     }
     fn expected_len(&self) -> usize {
@@ -132,7 +144,7 @@ pub trait Rig {
     fn fetch(&mut self, c: &Case, buf: &mut [u8]) -> Fetch;
 }
 
-struct RigT<RK: RadioKind, S: Fn(&Case)> {
+struct RigT<RK: RadioKind, S: Fn(&Case, bool)> {
     kind: RK,
     kind_mp: ModulationParams,
     lora: LoRa<RK, Delay>,
@@ -143,12 +155,42 @@ struct RigT<RK: RadioKind, S: Fn(&Case)> {
     script: S,
 }
 
-impl<RK: RadioKind, S: Fn(&Case)> Rig for RigT<RK, S> {
+impl<RK: RadioKind, S: Fn(&Case, bool)> Rig for RigT<RK, S> {
     fn fetch(&mut self, c: &Case, buf: &mut [u8]) -> Fetch {
-        (self.script)(c);
+        if PATHS[c.path] == "lora-second-reception" {
+            // ONE start_rx in continuous mode, TWO receptions: the chip first reports an earlier packet (21 bytes, or the
+            // configured length, ending where the judged one starts), then raises RxDone again for the judged one
+            let first = Case { len: if c.implicit { c.cfg_len } else { 21 }, off: c.off.wrapping_sub(21), irq: if c.chip == 0 { IRQ_RX_DONE } else { IRQ127_RX_DONE as u16 }, ..*c };
+            (self.script)(&first, false);
+            self.lora_iv.waits.set(0);
+            let mp = match self.lora.create_modulation_params(SpreadingFactor::_7, Bandwidth::_125KHz, CodingRate::_4_5, FREQ) {
+                Ok(m) => m,
+                Err(e) => return err_of(e),
+            };
+            let pp = match self.lora.create_rx_packet_params(c.pre, c.implicit, c.cfg_len, c.crc, c.iq, &mp) {
+                Ok(p) => p,
+                Err(e) => return err_of(e),
+            };
+            if let Err(e) = block_on(self.lora.prepare_for_rx(RxMode::Continuous, &mp, &pp)) {
+                return err_of(e);
+            }
+            if let Err(e) = block_on(self.lora.start_rx()) {
+                return err_of(e);
+            }
+            let mut scratch = [0u8; 256];
+            if let Err(e) = block_on(self.lora.complete_rx(&pp, &mut scratch)) {
+                return err_of(e);
+            }
+            (self.script)(c, true);
+            return match block_on(self.lora.complete_rx(&pp, buf)) {
+                Ok((l, _)) => Fetch::Ok(l as usize),
+                Err(e) => err_of(e),
+            };
+        }
+        (self.script)(c, false);
         match PATHS[c.path] {
             "kind" => {
-                let pp = match self.kind.create_packet_params(8, c.implicit, c.cfg_len, true, true, &self.kind_mp) {
+                let pp = match self.kind.create_packet_params(c.pre, c.implicit, c.cfg_len, c.crc, c.iq, &self.kind_mp) {
                     Ok(p) => p,
                     Err(e) => return err_of(e),
                 };
@@ -161,13 +203,13 @@ impl<RK: RadioKind, S: Fn(&Case)> Rig for RigT<RK, S> {
                     Err(e) => err_of(e),
                 }
             }
-            "lora-rx" | "lora-get_rx_result" => {
+            "lora-rx" | "lora-get_rx_result" | "lora-fetch-twice" => {
                 self.lora_iv.waits.set(0);
                 let mp = match self.lora.create_modulation_params(SpreadingFactor::_7, Bandwidth::_125KHz, CodingRate::_4_5, FREQ) {
                     Ok(m) => m,
                     Err(e) => return err_of(e),
                 };
-                let pp = match self.lora.create_rx_packet_params(8, c.implicit, c.cfg_len, true, true, &mp) {
+                let pp = match self.lora.create_rx_packet_params(c.pre, c.implicit, c.cfg_len, c.crc, c.iq, &mp) {
                     Ok(p) => p,
                     Err(e) => return err_of(e),
                 };
@@ -177,6 +219,19 @@ impl<RK: RadioKind, S: Fn(&Case)> Rig for RigT<RK, S> {
                 }
                 let r = if PATHS[c.path] == "lora-rx" {
                     block_on(self.lora.rx(&pp, buf))
+                } else if PATHS[c.path] == "lora-fetch-twice" {
+                    // the same reception fetched twice: the second fetch is the judged one
+                    match block_on(self.lora.start_rx()) {
+                        Ok(()) => {
+                            let mut scratch = [0u8; 256];
+                            let n = buf.len();
+                            match block_on(self.lora.get_rx_result(&pp, &mut scratch[..n])) {
+                                Ok(_) => block_on(self.lora.get_rx_result(&pp, buf)),
+                                Err(e) => Err(e),
+                            }
+                        }
+                        Err(e) => Err(e),
+                    }
                 } else {
                     match block_on(self.lora.start_rx()) {
                         Ok(()) => block_on(self.lora.get_rx_result(&pp, buf)),
@@ -243,24 +298,25 @@ fn fill127(ch: &C127) {
     c.regs[0x1A] = 70;
 }
 
-fn script126(ch: &C126, c: &Case) {
+fn script126(ch: &C126, c: &Case, raise_now: bool) {
     let mut m = ch.borrow_mut();
     m.status = c.status;
     m.rx_len = c.len;
     m.rx_start = c.off;
-    m.irq = 0;
+    // raise_now: the receiver is already running, the flags come up for another reception
+    m.irq = if raise_now { c.irq } else { 0 };
     m.irq_on_rx = c.irq;
     // the driver never writes the data buffer on an RX path; if it did, the content check would see it
 }
-fn script127(ch: &C127, c: &Case) {
+fn script127(ch: &C127, c: &Case, raise_now: bool) {
     let mut m = ch.borrow_mut();
     m.regs[REG_RX_NB_BYTES as usize] = c.len;
     m.regs[REG_FIFO_RX_CURRENT_ADDR as usize] = c.off;
-    m.regs[REG_IRQ_FLAGS as usize] = 0;
+    m.regs[REG_IRQ_FLAGS as usize] = if raise_now { c.irq as u8 } else { 0 };
     m.irq_on_rx = c.irq as u8;
 }
 
-fn build<RK: RadioKind>(mk: &dyn Fn() -> (RK, Iv), script: impl Fn(&Case) + 'static) -> Result<Box<dyn Rig>, String>
+fn build<RK: RadioKind>(mk: &dyn Fn() -> (RK, Iv), script: impl Fn(&Case, bool) + 'static) -> Result<Box<dyn Rig>, String>
 where
     RK: 'static,
 {
@@ -282,7 +338,7 @@ pub fn make_rig(chip: usize) -> Result<Box<dyn Rig>, String> {
             let c2 = ch.clone();
             let mk = move || rig::sx126x(&c2, Sx1262, false);
             let c3 = ch.clone();
-            build(&mk, move |c| script126(&c3, c))
+            build(&mk, move |c, r| script126(&c3, c, r))
         }
         "sx1276" => {
             let ch = rig::new127(Kind::Sx1276);
@@ -290,7 +346,7 @@ pub fn make_rig(chip: usize) -> Result<Box<dyn Rig>, String> {
             let c2 = ch.clone();
             let mk = move || rig::sx1276(&c2, false, false);
             let c3 = ch.clone();
-            build(&mk, move |c| script127(&c3, c))
+            build(&mk, move |c, r| script127(&c3, c, r))
         }
         _ => {
             let ch = rig::new127(Kind::Sx1272);
@@ -298,13 +354,23 @@ pub fn make_rig(chip: usize) -> Result<Box<dyn Rig>, String> {
             let c2 = ch.clone();
             let mk = move || rig::sx1272(&c2, false, false);
             let c3 = ch.clone();
-            build(&mk, move |c| script127(&c3, c))
+            build(&mk, move |c, r| script127(&c3, c, r))
         }
     }
 }
 
 /// runs one case on a rig and judges it
 pub fn run_case(rig: &mut dyn Rig, c: &Case) -> Result<&'static str, Failure> {
+    if c.buf > 256 {
+        // caller buffers larger than any LoRa packet
+        let mut store = [CANARY; BIG];
+        let size = c.buf.min(BIG);
+        let r = catch(|| rig.fetch(c, &mut store[..size]));
+        return match r {
+            Err(p) => Err(panic_failure(c.json(), &p)),
+            Ok(f) => judge_fetch(&Expect { case: &|| c.json(), chip: CHIPS[c.chip], want: c.expected_len(), off: c.off, size, implicit: c.implicit, fp_suffix: "" }, f, &store),
+        };
+    }
     let mut store = [CANARY; 256];
     let size = c.buf.min(256);
     let r = catch(|| rig.fetch(c, &mut store[..size]));
@@ -412,13 +478,75 @@ fn irq_sets(chip: usize, full: bool) -> Vec<u16> {
     }
 }
 
+/// (a) every caller buffer size 0..=256 and 257 / 300 / 512 / 1024 x every length x offsets {0, 255, the one that makes the packet end one byte
+/// past the wrap} x header mode, through RadioKind::get_rx_payload and LoRa::rx;
+/// (b) every length x every offset x buffers {256, 12, exactly the length} x header mode through ONE start_rx followed by
+/// TWO completed receptions (continuous mode; the second, at its own start pointer, is judged) and through two
+/// get_rx_result calls for one reception (the second is judged).
+fn extra_stage(ctx: &mut Ctx) {
+    ctx.parallel(|ti, n, st| {
+        for chip in 0..CHIPS.len() {
+            let mut rig = match catch(|| make_rig(chip)) {
+                Ok(Ok(r)) => r,
+                _ => continue, // reported by the main stage
+            };
+            let done: u16 = if chip == 0 { IRQ_RX_DONE | IRQ_HEADER_VALID | IRQ_PREAMBLE_DETECTED } else { (IRQ127_RX_DONE | IRQ_VALID_HEADER) as u16 };
+            let go = |c: Case, class: &str, st: &mut Stats, rig: &mut Box<dyn Rig>| {
+                st.eval();
+                if c.nontrivial() {
+                    st.nt_distinct();
+                }
+                match run_case(rig.as_mut(), &c) {
+                    Ok(outcome) => st.class(&format!("{class}:{outcome}")),
+                    Err(f) => {
+                        if f.rule == "no-panic" || f.rule == "harness-bug" {
+                            if let Ok(Ok(r)) = catch(|| make_rig(c.chip)) {
+                                *rig = r;
+                            }
+                        }
+                        st.fail(f)
+                    }
+                }
+            };
+            for l in 0..=255u8 {
+                if (l as usize + chip) % n != ti {
+                    continue;
+                }
+                for implicit in [false, true] {
+                    // implicit: configured length l, reported decoy l+1; explicit: reported l, configured maximum 255
+                    let (cfg_len, len) = if implicit { (l, l.wrapping_add(1)) } else { (255, l) };
+                    let pk = |off: u8| (off & 1 == 0, off & 2 == 0, PREAMBLES[(off >> 2) as usize & 3]);
+                    // (a) every buffer size
+                    for off in [0u8, 255, (257 - l as u16) as u8] {
+                        let (crc, iq, pre) = pk(off ^ l);
+                        for buf in (0..=256usize).chain([257, 300, 512, 1024]) {
+                            go(Case { chip, path: 0, implicit, cfg_len, len, off, buf, status: STATUS_OK, irq: 0, continuous: false, crc, iq, pre }, "every-buffer-size:kind", st, &mut rig);
+                            go(Case { chip, path: 1, implicit, cfg_len, len, off, buf, status: STATUS_OK, irq: done, continuous: buf % 2 == 1, crc, iq, pre }, "every-buffer-size:lora-rx", st, &mut rig);
+                        }
+                    }
+                    // (b) second reception / second fetch
+                    for off in 0..=255u8 {
+                        let (crc, iq, pre) = pk(off);
+                        let mut bufs = vec![256usize, 12, l as usize];
+                        bufs.dedup();
+                        for buf in bufs {
+                            go(Case { chip, path: 5, implicit, cfg_len, len, off, buf, status: STATUS_OK, irq: done, continuous: true, crc, iq, pre }, "second-reception-of-one-start_rx", st, &mut rig);
+                            go(Case { chip, path: 6, implicit, cfg_len, len, off, buf, status: STATUS_OK, irq: done, continuous: off % 2 == 0, crc, iq, pre }, "same-reception-fetched-twice", st, &mut rig);
+                        }
+                    }
+                }
+            }
+        }
+    });
+}
+
 pub fn run(ctx: &mut Ctx) {
     let full = ctx.tier == Tier::Thorough;
     ctx.level = "exploration".into();
     // the quick tier takes 3 of the status bytes and 2 of the interrupt-flag sets: only thorough covers the stated space
     ctx.exhaustive = full;
     ctx.rule = format!(
-        "(VERIF_SEED only selects the random histories of the stateful stage; everything else is enumerated) STATELESS: exhaustive enumeration on chip doubles (SX1262, SX1276, SX1272) whose 256-byte buffer/FIFO holds a position-dependent pattern and wraps: explicit header: every reported length 0..=255 (configured maximum 255, length-1 and length/2) x every offset 0..=255 x caller buffer sizes {{0,1,12,64,255,256}} x {{status bytes (SX126x), kind path}} / {{interrupt-flag sets x Single/Continuous, LoRa::rx and get_rx_result}} / {{LorawanRadio::rx_single, rx_continuous}}; implicit header (kind and LoRa paths): every configured length 0..=255 x every offset x the 6 buffer sizes x decoy reported lengths {{0, 255, configured+1}}. {} HAND-OVER to the MAC: authentic downlinks (reference codec) of 13..=255 bytes reported by the chip double at several offsets (incl. wrap-around) in RX1 of a real async_device::Device on top of LorawanRadio with radio buffers of 64, 255 and 256 bytes; a frame that fits must be delivered with exactly the plaintext that was sent, a longer one must give an error or no downlink. One evaluation = one fetch into a canary-filled buffer (or one such uplink+downlink transaction). Non-trivial (distinct by construction): effective length > buffer, or offset+length > 256 (wrap), or length 0, or an error status / CRC-error / no-RxDone interrupt set.{}",
+        "(VERIF_SEED only selects the random histories of the stateful stage; everything else is enumerated) STATELESS: exhaustive enumeration on chip doubles (SX1262, SX1276, SX1272) whose 256-byte buffer/FIFO holds a position-dependent pattern and wraps: packet parameters beyond header mode and length vary with the offset index on the RadioKind and LoRa paths (CRC on/off, IQ inverted or not, preamble 8 / 0 / 65535 / 12; the adapter fixes them); explicit header: every reported length 0..=255 (configured maximum 255, length-1 and length/2) x every offset 0..=255 x caller buffer sizes {{0,1,12,64,255,256}} x {{status bytes (SX126x), kind path}} / {{interrupt-flag sets x Single/Continuous, LoRa::rx and get_rx_result}} / {{LorawanRadio::rx_single, rx_continuous}}; implicit header (kind and LoRa paths): every configured length 0..=255 x every offset x the 6 buffer sizes x decoy reported lengths {{0, 255, configured+1}}. {} EXTRA GRIDS (both tiers): every caller buffer size 0..=256 and 257 / 300 / 512 / 1024 x every length x offsets {{0, 255, wrap by one}} x header mode through get_rx_payload and LoRa::rx; every length x every offset x buffers {{256, 12, exactly the length}} x header mode through ONE start_rx followed by TWO completed receptions in continuous mode (the second, at its own start pointer, is judged) and through TWO get_rx_result calls for one reception (the second is judged). HAND-OVER to the MAC: authentic downlinks (reference codec) of 13..=255 bytes reported by the chip double at several offsets (incl. wrap-around) in RX1 of a real async_device::Device on top of LorawanRadio with radio buffers of 64, 255 and 256 bytes; a frame that fits must be delivered with exactly the plaintext that was sent, a longer one must give an error or no downlink. One evaluation = one fetch into a canary-filled buffer (or one such uplink+downlink transaction). Non-trivial (distinct by construction): effective length > buffer, or offset+length > 256 (wrap), or length 0, or an error status / CRC-error / no-RxDone interrupt set.{}",
         if full { "thorough: 12 status bytes (all 8 command-status values), 5 interrupt-flag sets." } else { "quick: 3 status bytes (good, execution failure, timeout), 2 interrupt-flag sets." },
         super::c18_hist::RULE
     );
@@ -490,25 +618,25 @@ pub fn run(ctx: &mut Ctx) {
                             for &buf in BUF_SIZES.iter() {
                                 // kind path x status bytes
                                 for &status in sts.iter() {
-                                    go(Case { chip, path: 0, implicit, cfg_len, len, off, buf, status, irq: 0, continuous: false }, st, &mut rig);
+                                    go(Case { chip, path: 0, implicit, cfg_len, len, off, buf, status, irq: 0, continuous: false , crc: off & 1 == 0, iq: off & 2 == 0, pre: PREAMBLES[(off >> 2) as usize & 3] }, st, &mut rig);
                                 }
                                 // LoRa paths x interrupt sets x mode
                                 for &irq in irqs.iter() {
                                     for continuous in [false, true] {
-                                        go(Case { chip, path: 1, implicit, cfg_len, len, off, buf, status: STATUS_OK, irq, continuous }, st, &mut rig);
+                                        go(Case { chip, path: 1, implicit, cfg_len, len, off, buf, status: STATUS_OK, irq, continuous , crc: off & 1 == 0, iq: off & 2 == 0, pre: PREAMBLES[(off >> 2) as usize & 3] }, st, &mut rig);
                                     }
-                                    go(Case { chip, path: 2, implicit, cfg_len, len, off, buf, status: STATUS_OK, irq, continuous: false }, st, &mut rig);
+                                    go(Case { chip, path: 2, implicit, cfg_len, len, off, buf, status: STATUS_OK, irq, continuous: false , crc: off & 1 == 0, iq: off & 2 == 0, pre: PREAMBLES[(off >> 2) as usize & 3] }, st, &mut rig);
                                 }
                                 // LoRaWAN adapter (explicit only)
                                 if !implicit && cfg_len == 255 {
                                     for &irq in irqs.iter() {
-                                        go(Case { chip, path: 3, implicit, cfg_len, len, off, buf, status: STATUS_OK, irq, continuous: false }, st, &mut rig);
-                                        go(Case { chip, path: 4, implicit, cfg_len, len, off, buf, status: STATUS_OK, irq, continuous: true }, st, &mut rig);
+                                        go(Case { chip, path: 3, implicit, cfg_len, len, off, buf, status: STATUS_OK, irq, continuous: false , crc: true, iq: true, pre: 8 }, st, &mut rig);
+                                        go(Case { chip, path: 4, implicit, cfg_len, len, off, buf, status: STATUS_OK, irq, continuous: true , crc: true, iq: true, pre: 8 }, st, &mut rig);
                                     }
                                     if chip == 0 && full {
                                         // adapter with error status bytes
                                         for &status in sts.iter().skip(1) {
-                                            go(Case { chip, path: 3, implicit, cfg_len, len, off, buf, status, irq: irqs[0], continuous: false }, st, &mut rig);
+                                            go(Case { chip, path: 3, implicit, cfg_len, len, off, buf, status, irq: irqs[0], continuous: false , crc: true, iq: true, pre: 8 }, st, &mut rig);
                                         }
                                     }
                                 }
@@ -519,6 +647,8 @@ pub fn run(ctx: &mut Ctx) {
             }
         }
     });
+    // dimensions the grid above holds narrow: EVERY caller buffer size, a second reception of one start_rx, a second fetch
+    extra_stage(ctx);
     // the last hop: LorawanRadio -> the device's radio buffer -> MAC
     super::c18_mac::run(ctx);
     // receptions as the last step of a history on one driver instance
